@@ -1863,6 +1863,10 @@ def check_C11(ctx):
 
 def check_C13(ctx):
     build()
+    # design: compact() as an algorithm on page positions, every forest shape and placement: terminates, no two pages on one
+    # position, not longer at the end, no hole; a single pass may extend the file (documented as an expected violation)
+    tlc_check(ctx, "Compact", tiered(ctx, "MC_Compact.cfg", "MC_Compact_large.cfg"), workers=6, timeout=3000)
+    tlc_expect_violation(ctx, "Compact", "MC_Compact_grows.cfg", "NeverLonger", workers=2)
     run_kv_walk(ctx, "compact", tiered(ctx, 30, 300), tiered(ctx, 600, 1500), page_sizes="512,1024,4096", caches="1048576,0")
     run_kv_walk(ctx, "compact", tiered(ctx, 8, 80), tiered(ctx, 900, 2000), page_sizes="512", tag="compact-regions", extra=["--region-size", "65536"], nkeys=200)
     k = dict(ctx.notes.get("event_kinds", {}))
@@ -1872,7 +1876,11 @@ def check_C13(ctx):
         raise ToolError(f"vacuity: too few compactions: {k}")
     ctx.assumptions += ["'bounded number of passes' is checked as: sync_data calls during one compact() <= 8 * (pages of the file + 8)"]
     return dict(level="fault_enumeration", exhaustive=False,
-                rule="histories that fragment the file (inserts/deletes of values up to 5 pages, multimaps with subtrees, non-durable commits "
+                rule="design: Compact.tla - the relocation loop of compact() on page positions for every forest of 4 (thorough: 5) pages and "
+                     "every placement: it terminates, positions stay distinct, the file ends no longer than it began and without a hole "
+                     "(a single pass may extend it). code: a compact() that does not finish is ended by a watchdog and reported with its "
+                     "script; compact() called again at once must report that nothing moved; "
+                     "histories that fragment the file (inserts/deletes of values up to 5 pages, multimaps with subtrees, non-durable commits "
                      "pending, one large region or many 64 KiB regions) interleaved with compact(): TLC (Kv!Compact) requires the refusal "
                      "variants in their documented order, contents unchanged afterwards (every later read and the dump after reopen), the "
                      "storage length not larger than before, the number of syncs bounded by the file size; page accounting after every "
